@@ -161,7 +161,7 @@ Definition show_viol (v : viol) : string :=
   match v with
   | VConfined => "confined" | VProbeReject => "probe_reject" | VSpoofReply => "spoof_reply"
   | VStopUndone => "stop_undone" | VCloseStops => "close_stops" | VIdempotent => "start_idempotent"
-  | VPeriodic => "periodic" | VOther => "other"
+  | VPeriodic => "periodic" | VOther => "other" | VRestoreLast => "restore_last"
   end.
 
 (* ---- known classes ---- *)
@@ -178,11 +178,36 @@ Fixpoint explain_all (c : cfg) (pos : nat) (tr : list (state * event * list fram
   | _, _ => []
   end.
 
+(* "... restoring the router's real MAC, after which no further forged packet is sent to it unless it is hunted
+   again": the positions at which the handler itself writes a forged frame to a MAC that has received its loop's
+   restoring packet and has not been StartHunt'ed since.  By C13_stale_bound every such frame was decided under
+   the lock before StopHunt returned (a spoof reply in flight, a second loop's armed announcement): the recorded
+   class KEY_AFTER_RESTORE is exactly this check. *)
+Definition KEY_AFTER_RESTORE : string := "forged-frame-decided-before-stophunt-written-after-restore".
+
+Definition restore_dst (c : cfg) (f : frame) : list mac :=
+  if (fop f =? 1) && (fsmac f =? router_mac c) && (fsip f =? router_ip c) && negb (forged c f) then [fedst f] else [].
+
+Fixpoint after_restore (c : cfg) (restored : list mac) (pos : nat) (tr : list (state * event * list frame)) : list nat :=
+  match tr with
+  | [] => []
+  | (_, e, out) :: r =>
+      let bad := negb (caller_forged c e) && existsb (fun f => forged c f && mem (fedst f) restored) out in
+      let restored' :=
+        match e with
+        | StartHunt a => filter (fun x => negb (x =? amac a)) restored
+        | Send _ => (restored ++ flat_map (restore_dst c) out)%list
+        | _ => restored
+        end in
+      ((if bad then [pos] else []) ++ after_restore c restored' (S pos) r)%list
+  end.
+
 Definition run_seq (c : cfg) (evs : list event) : string :=
   let tr := trace c init_state evs in
   let obs := show_outputs c tr in
   let vs := sp_run c sp_init (map (fun x => (snd (fst x), snd x)) tr) in
-  let ex := explain_all c 0 tr vs in
+  let ex := (explain_all c 0 tr vs
+             ++ map (fun pos => (pos, VRestoreLast, Some KEY_AFTER_RESTORE)) (after_restore c [] 0 tr))%list in
   match ex with
   | [] => out3 obs obs "-"
   | (_, _, first) :: _ =>
